@@ -57,11 +57,10 @@ def _skip_char_or_lifetime(s, i):
     return i + 1  # lifetime / label
 
 
-def match_brace(s, i):
-    """s[i] == '{' -> index just after the matching '}'."""
-    assert s[i] == "{", "match_brace must start at '{'"
-    depth = 0
-    n = len(s)
+def code_chars(s, i, n=None):
+    """Yields (index, char) for every character of s[i:n] that is code (not inside a
+    string / char literal / comment)."""
+    n = len(s) if n is None else n
     while i < n:
         c = s[i]
         if c == "/" and s.startswith("//", i):
@@ -95,13 +94,21 @@ def match_brace(s, i):
         if c == "'":
             i = _skip_char_or_lifetime(s, i)
             continue
+        yield i, c
+        i += 1
+
+
+def match_brace(s, i):
+    """s[i] == '{' -> index just after the matching '}'."""
+    assert s[i] == "{", "match_brace must start at '{'"
+    depth = 0
+    for j, c in code_chars(s, i):
         if c == "{":
             depth += 1
         elif c == "}":
             depth -= 1
             if depth == 0:
-                return i + 1
-        i += 1
+                return j + 1
     raise SliceError("unbalanced braces")
 
 
@@ -117,21 +124,20 @@ def fn_span(s, sig_pattern, what):
     """Span (start_of_signature, index_of_body_open_brace, end) of the function whose
     signature matches sig_pattern (regex, matched once)."""
     a, b = find_unique(sig_pattern, s, what)
-    # body starts at the first '{' after the signature that is not inside generics/where:
-    i = b
-    depth_paren = 0
-    while i < len(s):
-        c = s[i]
+    # the body starts at the first '{' outside parentheses/brackets after the `fn` keyword
+    depth = 0
+    i = None
+    for j, c in code_chars(s, a):
         if c in "([":
-            depth_paren += 1
+            depth += 1
         elif c in ")]":
-            depth_paren -= 1
-        elif c == "{" and depth_paren == 0:
+            depth -= 1
+        elif c == "{" and depth == 0:
+            i = j
             break
-        elif c == ";" and depth_paren == 0:
+        elif c == ";" and depth == 0:
             raise SliceError("anchor %s: declaration without a body" % what)
-        i += 1
-    else:
+    if i is None:
         raise SliceError("anchor %s: no body" % what)
     return a, i, match_brace(s, i)
 
